@@ -53,7 +53,7 @@ def build_cases(ck: core.Check, rnd: random.Random):
             add({"src": "regex", "seq": s, "pattern": pat}, pipe_render.render_module({"items": [it]}))
             n_regex += 1
     # code -> spec
-    corpus = pipe_check.corpus_texts(rnd, n_lines=300 if ck.quick else 2443, n_bytes=100 if ck.quick else 1500, n_big=3 if ck.quick else 40, whole=True)
+    corpus = pipe_check.corpus_texts(rnd, n_lines=300 if ck.quick else 2443, n_bytes=100 if ck.quick else 1500, n_big=0 if ck.quick else 40, whole=True)
     for desc, text in corpus:
         add(desc, text)
     counts = {"templates": len(g["templates"]) + 1, "items_dev1": len(g["items1"]), "items_dev2": min(n2, len(items2)), "item_pairs": n_pairs, "regex": n_regex, "corpus": len(corpus), "items_dev2_enumerated": len(items2), "token_seqs_enumerated": len(seqs)}
